@@ -13,7 +13,8 @@
                         cidchar / cidrange / notdefchar / notdefrange blocks of at most chunkSize entries
                         (`chunks`), epilogue
      write_tokens_tu    toUnicodeTmplNew: the same with /CMapType 2, the fixed Adobe-UCS /CIDSystemInfo,
-                        bfchar / bfrange blocks; a range with exactly one value is written as a string,
+                        bfchar / bfrange blocks (bfrange blocks by rangeChunks: also limited to 400 operands);
+                        a range with exactly one value is written as a string,
                         any other number of values as an array; values are UTF-16BE (hexString)
      utf16be_enc        utf16.Encode + big-endian bytes (hexString)
    Reader side:
@@ -304,7 +305,44 @@ Definition tu_sysinfo : list token :=
   [TLit n_CIDSystemInfo; TExec n_dictopen; TLit n_Registry; TStr n_Adobe; TLit n_Ordering; TStr n_UCS;
    TLit n_Supplement; TInt 0; TExec n_dictclose; TExec n_def].
 
+(* rangeChunks: a new bfrange block starts after chunkSize ranges, or when the next range - the k-th of its
+   block, with a value list of m <> 1 elements - would need more than 400 operands (3k+3+m); the interpreter
+   keeps the operands of a block on its stack and allows 500 *)
+Definition max_need : N := 400.
+
+Definition range_need (k : nat) (r : trange) : N :=
+  3 * N.of_nat k + 3 + match snd r with
+                       | [_] => 0
+                       | vals => N.of_nat (length vals)
+                       end.
+
+Fixpoint rchunks (cur : list trange) (x : list trange) : list (list trange) :=
+  match x with
+  | [] => match cur with
+          | [] => []
+          | _ => [cur]
+          end
+  | r :: x' =>
+      let k := length cur in
+      if (0 <? k)%nat && ((k =? chunk_size)%nat || (max_need <? range_need k r))
+      then cur :: rchunks [r] x'
+      else rchunks (cur ++ [r]) x'
+  end.
+
+Definition range_chunks (x : list trange) : list (list trange) := rchunks [] x.
+
 Definition write_tokens_tu (t : ttext) : list token :=
+  prologue ++ usecmap_tokens (tt_parent t)
+  ++ [TLit n_CMapName; TLit (tt_name t); TExec n_def; TLit n_CMapType; TInt 2; TExec n_def]
+  ++ tu_sysinfo
+  ++ csr_tokens (tt_csr t)
+  ++ blocks n_beginbfchar n_endbfchar bfchar_entry (tt_singles t)
+  ++ flat_map (block n_beginbfrange n_endbfrange bfrange_entry) (range_chunks (tt_ranges t))
+  ++ epilogue.
+
+(* the writer as it was BEFORE the F48 repair: bfrange blocks of chunkSize ranges whatever their value lists;
+   kept to document F48 *)
+Definition write_tokens_tu_prefix (t : ttext) : list token :=
   prologue ++ usecmap_tokens (tt_parent t)
   ++ [TLit n_CMapName; TLit (tt_name t); TExec n_def; TLit n_CMapType; TInt 2; TExec n_def]
   ++ tu_sysinfo
